@@ -6,7 +6,7 @@ from . import common as K
 PROP = "C04"
 RULE = ("cases = histories of add_sample(t, stack, cpu, w) / add_sample_same_stack_zero_cpu(t, w) on one thread, and of add_counter_sample(t, value, n) on one counter; "
         "streams: sampled exhaustive histories of length <= 5 over 4 timestamps, random histories up to 300 calls with ~30% out-of-order and ~20% equal timestamps, "
-        "negative weights, zero and non-zero CPU deltas, None stacks; the two F-C04 witnesses run first (corpus). "
+        "negative weights, zero and non-zero CPU deltas up to 2^52 us (values around 2^32 included), None stacks; the two F-C04 witnesses run first (corpus). "
         "Observed: the serialized columns read back from serde_json (time deltas as exact ns; a negative / non-finite delta, unequal column lengths or a panic is 'bad'). "
         "non-trivial = the in-memory table was out of order at serialization time or a merge call extended an existing entry; distinct = distinct case text")
 TRUSTED = ["serde_json and the profile JSON layout (harness/h_fxprof/src/st.rs); float ms -> ns conversion by round(x*1e6), exact for t < 2^50 (generator stays below)",
@@ -47,7 +47,7 @@ def gen(tier, rng, scale):
             if rng.chance(1, 3):
                 items.append(["m", t, rng.choice([1, 1, 1, 3, -2])])
             else:
-                items.append(["a", t, rng.choice(["n", 0, 1, 2, 3, 4, 5]), rng.choice([0, 0, 0, 1, 250, 10**6]), rng.choice([1, 1, 1, -1, 7, -3])])
+                items.append(["a", t, rng.choice(["n", 0, 1, 2, 3, 4, 5]), rng.choice([0, 0, 0, 1, 250, 10**6, 10**6, 2**32 - 1, 2**32, 2**32 + 7, 5 * 10**9, 2**40 + 3, 2**52]), rng.choice([1, 1, 1, -1, 7, -3])])
         cases.append({"kind": "samples", "items": items})
     for _ in range((300 if quick else 4000) * scale):
         n = rng.range(1, 40 if quick else 200)
